@@ -17,6 +17,8 @@ CONFIGS = {
     'full': (True, ['serde', 'arbitrary', 'new_unchecked', 'regex'], True),
     'bare': (True, [], True),
     'nostd': (False, ['serde', 'arbitrary'], False),
+    # nothing in the crate graph links std (the `arbitrary` crate does): std-only inherent methods of primitives do not resolve
+    'nostd0': (False, [], None),
     # exactly one optional feature on: a gate that tests the wrong feature shows here
     'sch': (True, ['schemars08'], 'schemars'),
 }
@@ -41,7 +43,9 @@ def build_libs(cfg):
             r = build.repo()
             fs = ', '.join(f'"{f}"' for f in feats)
             deps = f'nutype = {{ path = "{r}/nutype", default-features = {"true" if df else "false"}, features = [{fs}] }}\n'
-            if extra == 'schemars':
+            if extra is None:
+                pass
+            elif extra == 'schemars':
                 deps += 'schemars = "0.8"\n'
             elif extra:
                 deps += 'serde = "1"\nserde_json = "1"\narbitrary = "1"\nregex = "1"\n'
